@@ -1,5 +1,7 @@
 (** C07: -noast parsers accept the same language and feed captures to inline actions. *)
-From PegV Require Import Base.Tac Spec.Syntax Spec.Peg Spec.WF Model.Machine Model.Runtime Model.Gen Proofs.Top Properties.Example.
+From PegV Require Import Base.Tac Spec.Syntax Spec.Peg Spec.WF Model.Machine Model.Runtime Model.Optimize Model.Gen
+  Proofs.OptSound Proofs.Top Proofs.OptTop Properties.Example.
+Local Open Scope nat_scope.
 
 (** A parser generated with -noast (with any -inline decision; with -switch the grammar term is the
     optimised tree, as in C02) returns the verdict and consumes the prefix of the PEG semantics - the
@@ -17,6 +19,25 @@ Theorem C07_noast_language_and_actions :
       match fst rr with Succ p _ => pos st' = p /\ p <= length buf | Fail => True end.
 Proof. exact c07_noast. Qed.
 Print Assumptions C07_noast_language_and_actions.
+
+(** -noast together with -switch: the -noast parser of the optimised tree terminates with the verdict
+    and the consumed prefix of the PEG semantics of the ORIGINAL tree - the language of the default
+    parser (C01) - for every grammar with a well-formedness certificate and a consistent analysis table,
+    every input of code points and every entry rule. *)
+Theorem C07_noast_switch_language :
+  forall g tab rank, wf_b g tab rank = true -> opt_ok_b g = true ->
+  good_grammar g -> good_grammar (optimize g) -> good_switches g -> good_switches (optimize g) ->
+  forall ptx buf penv, good_buf buf -> valid_buf buf ->
+  forall inline r rb st0,
+    (forall rb0, nth_error (optimize g) ptx = Some rb0 -> rb0 = RNil) ->
+    nth_error g r = Some rb -> rb <> RNil ->
+    o_inline (mk_opts false false inline (optimize g)) r = false ->
+    exists n res evs st',
+      peg_parse g ptx buf penv n r = Some (res, evs) /\
+      machine_noast (optimize g) ptx buf penv inline n r st0 = Some (Ret (match res with Fail => false | Succ _ _ => true end) st') /\
+      match res with Succ p _ => pos st' = p /\ p <= length buf | Fail => True end.
+Proof. intros g tab rank Hwf Hopt Hg Hg' Hsw Hsw' ptx buf penv Hb Hv. exact (c07_noast_switch g tab rank Hwf Hopt Hg' Hsw' ptx buf penv Hb Hv). Qed.
+Print Assumptions C07_noast_switch_language.
 
 (** non-vacuity: on "aby" the action of the abandoned first alternative R1 'x' DOES run inline
     (three times in all: once per attempt of R1), each time with text = [0,2) *)
